@@ -62,10 +62,29 @@ Proof.
 Qed.
 
 (** starting a call from a static frame does not change the world observationally *)
+Lemma weqv_create_absent : forall w a, exists_b w a = false -> weqv w (create_account w a).
+Proof.
+  intros w a H. split; [reflexivity|]. intros b. unfold create_account. rewrite acct_or_new_set.
+  destruct (b =? a) eqn:E; [|reflexivity]. apply Z.eqb_eq in E. subst.
+  unfold balance, acct_or_new, exists_b in *. destruct (get_acct w a); [discriminate|reflexivity].
+Qed.
+
+Lemma run_precompile_static : forall t w w_ok args g,
+    weqv w w_ok ->
+    match run_precompile t w_ok w args g with
+    | SImmediate _ _ w' _ => weqv w w'
+    | SFrame _ _ => False
+    | SUnsupported => True
+    end.
+Proof.
+  intros t w w_ok args g H. unfold run_precompile. destruct (t =? 4); [|exact I].
+  match goal with |- context [if ?b then _ else _] => destruct b end; [apply weqv_refl|exact H].
+Qed.
+
 Lemma start_call_static_world : forall k d w ps pc pv t args g v ro rs,
     (k = KCall -> v = 0) ->
     match start_call k d w ps pc pv true t args g v ro rs with
-    | SImmediate _ _ w' => weqv w w'
+    | SImmediate _ _ w' _ => weqv w w'
     | SFrame child w' => weqv w w' /\ f_static child = true /\ f_kind child = k /\ k <> KCreate /\ f_snap child = w
     | SUnsupported => True
     end.
@@ -73,32 +92,44 @@ Proof.
   intros k d w ps pc pv t args g v ro rs Hv. unfold start_call.
   destruct (call_create_depth <? d); [apply weqv_refl|].
   destruct k.
-  - rewrite (Hv eq_refl). cbn [Z.eqb negb andb].
+  - rewrite (Hv eq_refl). cbn [Z.eqb Z.ltb Z.compare negb andb orb].
     destruct (is_precompile t) eqn:Hp.
-    + rewrite andb_false_r. cbn [andb]. exact I.
+    + rewrite andb_false_r. cbn [andb].
+      match goal with |- match run_precompile ?tt ?wok ?ws ?aa ?gg with _ => _ end =>
+        pose proof (run_precompile_static tt ws wok aa gg) as Hr;
+        destruct (run_precompile tt wok ws aa gg) end; auto.
+      * apply Hr. destruct (exists_b w t) eqn:Hex; [apply weqv_transfer0|].
+        eapply weqv_trans; [apply weqv_create_absent; exact Hex|apply weqv_transfer0].
+      * exfalso. apply Hr. destruct (exists_b w t) eqn:Hex; [apply weqv_transfer0|].
+        eapply weqv_trans; [apply weqv_create_absent; exact Hex|apply weqv_transfer0].
     + destruct (exists_b w t) eqn:Hex; cbn [negb andb]; [|apply weqv_refl].
       destruct (is_nil (code_of (transfer w ps t 0) t)).
       * apply weqv_transfer0.
       * repeat split; try apply weqv_transfer0; discriminate.
-  - destruct (balance w ps <? v); [apply weqv_refl|].
-    destruct (is_precompile t); [exact I|].
+  - destruct ((v <? 0) || (balance w ps <? v)); [apply weqv_refl|].
+    destruct (is_precompile t).
+    { pose proof (run_precompile_static t w w args g (weqv_refl w)) as Hr.
+      destruct (run_precompile t w w args g); auto. destruct Hr. }
     destruct (is_nil (code_of w t)); [apply weqv_refl|].
     repeat split; try apply weqv_refl; discriminate.
-  - destruct (is_precompile t); [exact I|].
+  - destruct (is_precompile t).
+    { pose proof (run_precompile_static t w w args g (weqv_refl w)) as Hr.
+      destruct (run_precompile t w w args g); auto. destruct Hr. }
     destruct (is_nil (code_of w t)); [apply weqv_refl|].
     repeat split; try apply weqv_refl; discriminate.
-  - destruct (is_precompile t); [exact I|].
+  - destruct (is_precompile t).
+    { pose proof (run_precompile_static t w (touch w t) args g (weqv_touch w t)) as Hr.
+      destruct (run_precompile t (touch w t) w args g); auto. destruct Hr. }
     destruct (is_nil (code_of (touch w t) t)); [apply weqv_touch|].
     repeat split; try apply weqv_touch; discriminate.
   - apply weqv_refl.
 Qed.
 
-
 Lemma start_call_nonstatic : forall k d w ps pc pv t args g v ro rs child w',
     start_call k d w ps pc pv false t args g v ro rs = SFrame child w' ->
     f_kind child = k /\ k <> KCreate /\ f_snap child = w /\ (f_static child = true -> weqv w w').
 Proof.
-  intros until w'. unfold start_call.
+  intros until w'. unfold start_call, run_precompile.
   destruct (call_create_depth <? d); [discriminate|].
   destruct k; repeat match goal with
     | |- context [if ?b then _ else _] => destruct b
@@ -240,7 +271,7 @@ Proof.
   - (* CREATE *)
     specialize (Hns eq_refl).
     match goal with |- context [start_create ?d ?ww ?a ?b ?c ?dd ?ee ?ff] =>
-      destruct (start_create d ww a b c dd ee ff) as [o gb w'|child w'|] eqn:Hs end.
+      destruct (start_create d ww a b c dd ee ff) as [o gb w' iret|child w'|] eqn:Hs end.
     + cbn [c_frames c_world]. apply Hany; reflexivity.
     + cbn [c_frames c_world]. apply start_create_kind in Hs. destruct Hs as [Hk Hcs]. rewrite Hns in Hcs.
       eapply push_SI with (f := f) (w := w);
@@ -249,7 +280,7 @@ Proof.
   - (* CREATE2 *)
     specialize (Hns eq_refl).
     match goal with |- context [start_create ?d ?ww ?a ?b ?c ?dd ?ee ?ff] =>
-      destruct (start_create d ww a b c dd ee ff) as [o gb w'|child w'|] eqn:Hs end.
+      destruct (start_create d ww a b c dd ee ff) as [o gb w' iret|child w'|] eqn:Hs end.
     + cbn [c_frames c_world]. apply Hany; reflexivity.
     + cbn [c_frames c_world]. apply start_create_kind in Hs. destruct Hs as [Hk Hcs]. rewrite Hns in Hcs.
       eapply push_SI with (f := f) (w := w);
@@ -260,7 +291,7 @@ Proof.
     + destruct (Hst eq_refl) as [_ Hv].
       match goal with |- context [start_call ?k ?d ?ww ?a ?b ?c true ?ee ?ff ?gg ?hh ?ii ?jj] =>
         pose proof (start_call_static_world k d ww a b c ee ff gg hh ii jj) as Hw;
-        destruct (start_call k d ww a b c true ee ff gg hh ii jj) as [o gb w'|child w'|] end.
+        destruct (start_call k d ww a b c true ee ff gg hh ii jj) as [o gb w' iret|child w'|] end.
       * cbn [c_frames c_world]. apply SIL_weqv with (w := w).
         -- apply SIL_same_top with (f := f); [reflexivity|assumption].
         -- apply Hw. intros ->. cbn [instr_pops]. apply Hv. reflexivity.
@@ -272,7 +303,7 @@ Proof.
           [exact HS | reflexivity | intros _; split; assumption | intros _; rewrite H5; exact H1 | intros Hk; congruence].
       * cbn [c_frames c_world]. apply SIL_same_top with (f := f); [reflexivity|assumption].
     + match goal with |- context [start_call ?k ?d ?ww ?a ?b ?c false ?ee ?ff ?gg ?hh ?ii ?jj] =>
-        destruct (start_call k d ww a b c false ee ff gg hh ii jj) as [o gb w'|child w'|] eqn:Hs end.
+        destruct (start_call k d ww a b c false ee ff gg hh ii jj) as [o gb w' iret|child w'|] eqn:Hs end.
       * cbn [c_frames c_world]. apply SIL_same_top with (f := f); [reflexivity|].
         cbn [map]. apply SIL_nostatic with (w := w); auto.
       * cbn [c_frames c_world]. apply start_call_nonstatic in Hs. destruct Hs as [H1 [H2 [H3 H4]]].
@@ -333,7 +364,7 @@ Proof. intros w. split; [exact I|]. split; intros s []. Qed.
 Lemma init_call_SI : forall e w t input g v, SI (init_call e w t input g v).
 Proof.
   intros. unfold init_call, SI.
-  destruct (start_call KCall 0 w (e_origin e) (e_origin e) 0 false t input g v 0 0) as [o gb w'|child w'|] eqn:Hs.
+  destruct (start_call KCall 0 w (e_origin e) (e_origin e) 0 false t input g v 0 0) as [o gb w' iret|child w'|] eqn:Hs.
   - destruct o; cbn [c_frames c_world map]; apply SIL_nil.
   - apply start_call_nonstatic in Hs. destruct Hs as [H1 [H2 [H3 H4]]].
     cbn [c_frames c_world map]. split; [|split].
@@ -346,7 +377,7 @@ Lemma init_create_SI : forall e w init g v, SI (init_create keccak e w init g v)
 Proof.
   intros. unfold init_create, SI.
   match goal with |- context [start_create ?d ?ww ?a ?b ?cc ?dd ?ee ?ff] =>
-    destruct (start_create d ww a b cc dd ee ff) as [o gb w'|child w'|] eqn:Hs end.
+    destruct (start_create d ww a b cc dd ee ff) as [o gb w' iret|child w'|] eqn:Hs end.
   - cbn [c_frames c_world map]; apply SIL_nil.
   - apply start_create_kind in Hs. destruct Hs as [H1 H2].
     cbn [c_frames c_world map]. split; [|split].
